@@ -312,7 +312,8 @@ pub fn run(ctx: &Ctx) -> CheckResult {
 
     // 2^32 + 2048 calls on one instance (a cursor / fill counter in a 32-bit type wraps there): the last 4000
     // steps - before, at and after the wrap - against the reference on the last window
-    if !res.out.failed() {
+    // (thorough tier: about 30 s per configuration here, several minutes on a slower machine)
+    if th && !res.out.failed() {
         let mut hz: Vec<Cfg> = vec![Cfg::p1(Kind::Sd, 20), Cfg::p1(Kind::Sma, 10)];
         if th {
             hz.extend([Cfg::p1(Kind::Wma, 9), Cfg::p1(Kind::Min, 14), Cfg::p1(Kind::Max, 10), Cfg::pm(Kind::Bb, 20, 2.0)]);
